@@ -8,6 +8,7 @@ package aws
 
 import (
 	"errors"
+	"github.com/aws/aws-sdk-go/aws/awserr"
 	"strconv"
 	"time"
 
@@ -38,10 +39,24 @@ type VerifCall struct {
 type VerifJournal struct {
 	Calls []VerifCall
 	// failure injection shared by all fakes
-	FailBudget int
-	Failed     int
-	Seq        int
-	Stamp      bool // read the clock when a resize / attach is accepted
+	FailBudget  int
+	Failed      int
+	Seq         int
+	Stamp       bool // read the clock when a resize / attach is accepted
+	TypedErrors bool // a failing cloud call returns a generic error, an AWS throttling error or an AWS ValidationError (symbolic)
+}
+
+// failure builds the error of a failing cloud call.
+func (j *VerifJournal) failure(api string) error {
+	if j != nil && j.TypedErrors {
+		switch verifChoice("errkind_"+strconv.Itoa(j.Seq)+"_"+api, 3) {
+		case 1:
+			return awserr.New("Throttling", "Rate exceeded", nil)
+		case 2:
+			return awserr.New("ValidationError", "Instance Id not found - No managed instance found for instance ID", nil)
+		}
+	}
+	return errors.New("injected " + api + " failure")
 }
 
 // Fail decides whether the next fake call fails (one symbolic Bool per call,
@@ -87,8 +102,9 @@ type VerifAutoScaling struct {
 	J      *VerifJournal
 	Groups []*VerifASG
 	// AttachFailAt: 1-based index of the AttachInstances call that fails (0 = none)
-	AttachFailAt int
-	attachCalls  int
+	AttachFailAt  int
+	attachCalls   int
+	AttachFailFor int // how many consecutive AttachInstances calls fail from AttachFailAt on (0 = one)
 	// LaunchBase: launch time reported for instances (unix seconds)
 	LaunchBase int64
 	// DescribeDown: every DescribeAutoScalingGroups call fails (throttled control plane); the
@@ -110,7 +126,7 @@ func (s *VerifAutoScaling) Group(name string) *VerifASG {
 
 func (s *VerifAutoScaling) DescribeAutoScalingGroups(in *autoscaling.DescribeAutoScalingGroupsInput) (*autoscaling.DescribeAutoScalingGroupsOutput, error) {
 	if s.DescribeDown || s.J.Fail("DescribeAutoScalingGroups") {
-		return nil, errors.New("injected DescribeAutoScalingGroups failure")
+		return nil, s.J.failure("DescribeAutoScalingGroups")
 	}
 	out := &autoscaling.DescribeAutoScalingGroupsOutput{}
 	for _, name := range in.AutoScalingGroupNames {
@@ -149,7 +165,7 @@ func (s *VerifAutoScaling) SetDesiredCapacity(in *autoscaling.SetDesiredCapacity
 	}
 	if s.J.Fail("SetDesiredCapacity") {
 		s.J.Calls = append(s.J.Calls, c)
-		return nil, errors.New("injected SetDesiredCapacity failure")
+		return nil, s.J.failure("SetDesiredCapacity")
 	}
 	if g == nil || n > g.Max || n < g.Min {
 		s.J.Calls = append(s.J.Calls, c)
@@ -180,7 +196,7 @@ func (s *VerifAutoScaling) TerminateInstanceInAutoScalingGroup(in *autoscaling.T
 	s.termCalls++
 	if s.termCalls == s.termFailAt || s.J.Fail("TerminateInstanceInAutoScalingGroup") {
 		s.J.Calls = append(s.J.Calls, c)
-		return nil, errors.New("injected TerminateInstanceInAutoScalingGroup failure")
+		return nil, s.J.failure("TerminateInstanceInAutoScalingGroup")
 	}
 	if g == nil {
 		s.J.Calls = append(s.J.Calls, c)
@@ -218,9 +234,9 @@ func (s *VerifAutoScaling) AttachInstances(in *autoscaling.AttachInstancesInput)
 	if g != nil {
 		c.Prev = g.Desired
 	}
-	if (s.AttachFailAt > 0 && s.attachCalls == s.AttachFailAt) || s.J.Fail("AttachInstances") {
+	if (s.AttachFailAt > 0 && s.attachCalls >= s.AttachFailAt && s.attachCalls < s.AttachFailAt+maxInt(s.AttachFailFor, 1)) || s.J.Fail("AttachInstances") {
 		s.J.Calls = append(s.J.Calls, c)
-		return nil, errors.New("injected AttachInstances failure")
+		return nil, s.J.failure("AttachInstances")
 	}
 	if g == nil || len(c.IDs) > 20 || len(c.IDs) == 0 || g.Desired+int64(len(c.IDs)) > g.Max {
 		s.J.Calls = append(s.J.Calls, c)
@@ -245,7 +261,7 @@ func (s *VerifAutoScaling) CreateOrUpdateTags(in *autoscaling.CreateOrUpdateTags
 	}
 	if s.J.Fail("CreateOrUpdateTags") {
 		s.J.Calls = append(s.J.Calls, c)
-		return nil, errors.New("injected CreateOrUpdateTags failure")
+		return nil, s.J.failure("CreateOrUpdateTags")
 	}
 	c.OK = true
 	s.J.Calls = append(s.J.Calls, c)
@@ -260,8 +276,8 @@ func (s *VerifAutoScaling) TermFailAt(k int) { s.termFailAt = s.termCalls + k }
 type VerifEC2 struct {
 	ec2iface.EC2API
 	fleetCalls int
-	J  *VerifJournal
-	AS *VerifAutoScaling
+	J          *VerifJournal
+	AS         *VerifAutoScaling
 	// FleetSize: number of instance ids CreateFleet returns (-1 = as many as requested)
 	FleetSize int
 	// FleetSets: the ids are split over this many FleetInstance entries (>=1)
@@ -286,7 +302,7 @@ type VerifEC2 struct {
 
 func (e *VerifEC2) DescribeInstances(in *ec2.DescribeInstancesInput) (*ec2.DescribeInstancesOutput, error) {
 	if e.J.Fail("DescribeInstances") {
-		return nil, errors.New("injected DescribeInstances failure")
+		return nil, e.J.failure("DescribeInstances")
 	}
 	t := time.Unix(e.LaunchUnix, 0)
 	id := ""
@@ -323,7 +339,7 @@ func (e *VerifEC2) CreateFleet(in *ec2.CreateFleetInput) (*ec2.CreateFleetOutput
 	}
 	if e.J.Fail("CreateFleet") {
 		e.J.Calls = append(e.J.Calls, c)
-		return nil, errors.New("injected CreateFleet failure")
+		return nil, e.J.failure("CreateFleet")
 	}
 	n := e.FleetSize
 	if n < 0 {
@@ -368,7 +384,7 @@ func maxInt(a, b int) int {
 func (e *VerifEC2) DescribeInstanceStatusPages(in *ec2.DescribeInstanceStatusInput, fn func(*ec2.DescribeInstanceStatusOutput, bool) bool) error {
 	e.polls++
 	if e.J.Fail("DescribeInstanceStatusPages") {
-		return errors.New("injected DescribeInstanceStatusPages failure")
+		return e.J.failure("DescribeInstanceStatusPages")
 	}
 	ready := e.ReadyAfter > 0 && e.polls >= e.ReadyAfter
 	pages := e.StatusPages
@@ -405,7 +421,7 @@ func (e *VerifEC2) TerminateInstances(in *ec2.TerminateInstancesInput) (*ec2.Ter
 	}
 	if e.terminateCalls == e.TerminateFailAt || e.J.Fail("TerminateInstances") {
 		e.J.Calls = append(e.J.Calls, c)
-		return nil, errors.New("injected TerminateInstances failure")
+		return nil, e.J.failure("TerminateInstances")
 	}
 	if len(c.IDs) > 1000 {
 		e.J.Calls = append(e.J.Calls, c)
@@ -445,7 +461,7 @@ func (b *VerifBuilder) Build() (cloudprovider.CloudProvider, error) {
 	b.Builds++
 	if b.J != nil && b.J.Fail("Build") {
 		b.Failed++
-		return nil, errors.New("injected Build failure")
+		return nil, b.J.failure("Build")
 	}
 	cloud, err := VerifNewCloudProvider(b.Service, b.EC2, b.Configs...)
 	if err != nil {
